@@ -49,7 +49,7 @@ func jmpToOriginFunctionValue(from, to uintptr) (value []byte) {
 		byte(to >> 40),
 		byte(to >> 48),
 		byte(to >> 56), // movabs rdx,to
-		0xFF, 0x22,     // jmp QWORD PTR [rdx]
+		0xFF, 0xE2,     // jmp rdx (to is a code address, not a function value)
 	}
 }
 
